@@ -75,8 +75,9 @@ type poolState struct {
 }
 
 type s2Writer struct {
-	dst iface
-	buf []value
+	dst  iface
+	buf  []value
+	cell value // one race-monitor location for the writer's state (an s2.Writer is not safe for concurrent use)
 }
 
 type s2Reader struct {
@@ -127,6 +128,9 @@ func (m *Machine) envIntrinsics() {
 	nilErr := iface{}
 	add := map[string]in{
 		"(*sync.Pool).Get": func(m *Machine, fr *frame, a []value) value {
+			if m.PoolPreempt {
+				defer m.preemptPoint()
+			}
 			p := a[0].(*value)
 			ps := pools()[p]
 			// single-P order of the real sync.Pool: the private slot first, then the shared
@@ -148,6 +152,9 @@ func (m *Machine) envIntrinsics() {
 			return m.callValue(newFn, nil)
 		},
 		"(*sync.Pool).Put": func(m *Machine, fr *frame, a []value) value {
+			if m.PoolPreempt {
+				defer m.preemptPoint()
+			}
 			p := a[0].(*value)
 			ps := pools()[p]
 			if ps == nil {
@@ -223,17 +230,27 @@ func (m *Machine) envIntrinsics() {
 			return nilErr
 		},
 		"github.com/klauspost/compress/s2.NewWriter": func(m *Machine, fr *frame, a []value) value {
-			var v value = &s2Writer{dst: a[0].(iface)}
+			d, _ := a[0].(iface)
+			var v value = &s2Writer{dst: d}
 			return &v
+		},
+		"(*github.com/klauspost/compress/s2.Writer).Reset": func(m *Machine, fr *frame, a []value) value {
+			w := (*a[0].(*value)).(*s2Writer)
+			m.raceAccess(&w.cell, true, "s2.Writer.Reset")
+			w.dst, _ = a[1].(iface)
+			w.buf = nil
+			return nil
 		},
 		"(*github.com/klauspost/compress/s2.Writer).Write": func(m *Machine, fr *frame, a []value) value {
 			w := (*a[0].(*value)).(*s2Writer)
+			m.raceAccess(&w.cell, true, "s2.Writer.Write")
 			p := a[1].([]value)
 			w.buf = append(w.buf, p...)
 			return tuple{m.st.BV(64, uint64(len(p))), nilErr}
 		},
 		"(*github.com/klauspost/compress/s2.Writer).Close": func(m *Machine, fr *frame, a []value) value {
 			w := (*a[0].(*value)).(*s2Writer)
+			m.raceAccess(&w.cell, true, "s2.Writer.Close")
 			n := len(w.buf)
 			if raw, ok := concreteBytes(w.buf); ok && !m.StubS2 {
 				// concrete content: the real s2 encoder, so files are byte-identical to the real build's
